@@ -14,6 +14,11 @@ spec's abstraction (item kinds; literalness from ast.literal_eval, the oracle
 the property names), the documented result is looked up in what TLC printed and
 compared with NativeEnvironment(enable_async in {False, True}) x render /
 render_async: None / the very object / the literal value and its type / the text.
+
+Spec: spec/NativeSession.tla.  Sequences of renders in one process, the callers changing
+the values they were given in between: every render returns the literal value of its own
+text and never an object another render returned.  TLC enumerates the sessions, each is
+replayed on the real code with seeded texts / template shapes / entry points / environments.
 """
 from __future__ import annotations
 
